@@ -21,7 +21,9 @@ ASSUMPTIONS = ['end convention: basic/contextual report the coordinates of offse
 
 NL_TERMS = [('str', '\n', ''), ('re', r'\n', ''), ('re', r'\s+', ''), ('re', r'[^ab]', ''), ('re', r'.', 's'), ('re', r'(?s:.)', ''),
             ('re', r'\D+', ''), ('re', r'\W+', ''), ('re', r'[\x00-\x20]+', ''), ('re', r'[\t-\r]+', ''), ('re', r'\x0a', ''),
-            ('re', r'\012', ''), ('re', r'[\s\S]', ''), ('re', r'(\r?\n)+', ''), ('re', r'\n[ \t]*', ''), ('re', r'[^\S ]+', '')]
+            ('re', r'\012', ''), ('re', r'[\s\S]', ''), ('re', r'(\r?\n)+', ''), ('re', r'\n[ \t]*', ''), ('re', r'[^\S ]+', ''),
+            # flag combinations: every subset of i, m, s, x that contains s must still be seen as newline-capable
+            ('re', r'.', 'is'), ('re', r'a.*?b', 'si'), ('re', r'.+?b', 'ms'), ('re', r'.', 'ims'), ('re', r'.', 'sx'), ('re', r'b.', 'sm')]
 PLAIN_TERMS = [('str', 'a', ''), ('re', r'a+', ''), ('str', 'b', ''), ('re', r'[ab]+', ''), ('str', ' ', ''), ('re', r' +', ''), ('str', 'ab', ''),
                ('str', '\t', ''), ('re', r'b+', '')]
 ALPHA = ['a', 'b', ' ', '\n', '\r', '\t', '\n', 'a', '\n']
